@@ -903,7 +903,15 @@ where
 
                 // If count is zero, jump to visitor
                 match count {
-                    0 => visitor.visit_seq(ArrayAccess::new(self, len, count)),
+                    0 => {
+                        // An empty array may still carry its element constructor: the rest of
+                        // the announced body (everything after the count) is skipped
+                        let rest = len.checked_sub(1).ok_or(Error::InvalidLength)?;
+                        if rest > 0 {
+                            let _ = self.reader.read_bytes(rest)?;
+                        }
+                        visitor.visit_seq(ArrayAccess::new(self, 0, count))
+                    }
                     _ => {
                         let format_code = self
                             .read_format_code()
@@ -934,7 +942,14 @@ where
 
                 // If count is zero, jump to visitor
                 match count {
-                    0 => visitor.visit_seq(ArrayAccess::new(self, len, count)),
+                    0 => {
+                        // See `Array8` arm above
+                        let rest = len.checked_sub(4).ok_or(Error::InvalidLength)?;
+                        if rest > 0 {
+                            let _ = self.reader.read_bytes(rest)?;
+                        }
+                        visitor.visit_seq(ArrayAccess::new(self, 0, count))
+                    }
                     _ => {
                         let format_code = self
                             .read_format_code()
